@@ -402,3 +402,34 @@ M("C08-search-on-stale-model", {"C08": "C08.R6"}, (_CMf, "        (donor_cluster
 M("C08-commit-after-loop", {"C08": "C08.R6"}, (_CMf, "            new_model, donor_cluster_id, empty_cluster_id)\n        new_model.point_labels = updated_point_labels\n", "            new_model, donor_cluster_id, empty_cluster_id)\n    new_model.point_labels = updated_point_labels\n"))
 M("C08-pool-reset-each-round", {"C08": "C08.R6"}, (_CMf, "            new_model, remaining_donors)\n        LOGGER.info(\"Repopulating", "            new_model, donor_cluster_ids)\n        LOGGER.info(\"Repopulating"))
 M("C08-twin-copy-copy", {"C08": None}, (_CMf, "    new_point_labels = list(model.point_labels)", "    new_point_labels = model.point_labels[:]"))
+
+# ---------------------------------------------------------------- C02
+M("C02-rho-over-two", {"C02": "C02.R6"}, (_S, "    rho_scale = 1 / (2*rho)", "    rho_scale = rho / 2"))
+M("C02-eigh-one-over-rho", {"C02": "C02.R6"}, (_S, "    d, q = np.linalg.eigh(rho * z_minus_u - empirical_covariance)", "    d, q = np.linalg.eigh((1 / rho) * z_minus_u - empirical_covariance)"))
+M("C02-rationalised-drops-rho", {"C02": "C02.R6"}, (_S, "    eigenvalues[negative] = (4*rho) / (root[negative] - d[negative])", "    eigenvalues[negative] = 4.0 / (root[negative] - d[negative])"))
+M("C02-determinant-two-rho", {"C02": "C02.R6"}, (_S, "    determinant = np.square(d) + (4*rho) * np.ones(d.shape)", "    determinant = np.square(d) + (2*rho) * np.ones(d.shape)"))
+M("C02-x-gets-z-plus-u", {"C02": "C02.R6"}, (_S, "    z_minus_u_compressed = z - u", "    z_minus_u_compressed = z + u"))
+M("C02-u-sign", {"C02": "C02.R7"}, (_S, "    return u + x - z", "    return u - x + z"))
+M("C02-u-before-z", {"C02": "C02.R7"}, (_S, "        z = admm_update_z(args, u, x)\n        u = admm_update_u(u, x, z)\n", "        u = admm_update_u(u, x, z)\n        z = admm_update_z(args, u, x)\n"))
+M("C02-z-occurrences-minus-one", {"C02": ["C02.R3", "C02.R4"]}, (_S, "        num_occurrences = num_blocks - block_id\n        for row in range(block_size):", "        num_occurrences = num_blocks - block_id - 1\n        for row in range(block_size):"))
+M("C02-z-start-column-zero", {"C02": "C02.R1"}, (_S, "            start_column = row if block_id == 0 else 0", "            start_column = 0"))
+M("C02-z-start-column-always-row", {"C02": "C02.R1"}, (_S, "            start_column = row if block_id == 0 else 0", "            start_column = row"))
+M("C02-z-blocks-short", {"C02": "C02.R1"}, (_S, "    for block_id in range(num_blocks):", "    for block_id in range(num_blocks - 1):"))
+M("C02-z-different-tuples", {"C02": "C02.R2"}, (_S, "                lambda_sum = compute_lambda_sum(args.sparsity_weight,\n                                                block_id, row, col,", "                lambda_sum = compute_lambda_sum(args.sparsity_weight,\n                                                block_id, col, row,"))
+M("C02-z-reads-x-only", {"C02": "C02.R2"}, (_S, "scaled_point_sum = args.rho * np.sum(theta_plus_u[indices])", "scaled_point_sum = args.rho * np.sum(x[indices])"))
+M("C02-z-sum-minus-u", {"C02": "C02.R2"}, (_S, "    theta_plus_u = x + u\n", "    theta_plus_u = x - u\n"))
+M("C02-threshold-sign", {"C02": "C02.R4"}, (_S, "        updated_z_value = (scaled_point_sum - lambda_sum) / rho_times_r\n", "        updated_z_value = (scaled_point_sum + lambda_sum) / rho_times_r\n"))
+M("C02-threshold-guard-ge-zero", {"C02": "C02.R4"}, (_S, "    if scaled_point_sum > lambda_sum:", "    if scaled_point_sum > 0:"))
+M("C02-threshold-no-rho-in-divisor", {"C02": ["C02.R4", "C02.R3"]}, (_S, "                                                        args.rho * num_occurrences)", "                                                        num_occurrences)"))
+M("C02-scale-new-over-old", {"C02": "C02.R8"}, (_S, "                scale = args.rho / new_rho", "                scale = new_rho / args.rho"))
+M("C02-scale-after-store", {"C02": "C02.R8"}, (_S, "                scale = args.rho / new_rho\n                args.rho = new_rho\n", "                args.rho = new_rho\n                scale = args.rho / new_rho\n"))
+M("C02-no-rescale", {"C02": "C02.R8"}, (_S, "                u = scale * u\n", ""))
+M("C02-callback-args-swapped", {"C02": "C02.R8"}, (_S, "                                          residual_primal, tolerance_primal,\n                                          residual_dual, tolerance_dual)\n                scale", "                                          residual_dual, tolerance_dual,\n                                          residual_primal, tolerance_primal)\n                scale"))
+M("C02-stop-or", {"C02": "C02.R9"}, (_S, "    should_stop = ((residual_primal <= tolerance_primal) and\n                   (residual_dual <= tolerance_dual))", "    should_stop = ((residual_primal <= tolerance_primal) or\n                   (residual_dual <= tolerance_dual))"))
+M("C02-dual-residual-no-rho", {"C02": "C02.R9"}, (_S, "    residual_dual = norm(args.rho * (z - z_old))", "    residual_dual = norm(z - z_old)"))
+M("C02-primal-tolerance-min", {"C02": "C02.R9"}, (_S, "args.relative_tolerance * max(norm(x), norm(z)))", "args.relative_tolerance * min(norm(x), norm(z)))"))
+M("C02-stale-z-old", {"C02": "C02.R9"}, (_S, "        z_old = z\n        x = admm_update_x(args, u, z, empirical_covariance)\n        z = admm_update_z(args, u, x)\n", "        x = admm_update_x(args, u, z, empirical_covariance)\n        z = admm_update_z(args, u, x)\n        z_old = z\n"))
+M("C02-break-on-primal-only", {"C02": "C02.R9"}, (_S, "            if converged:", "            if converged or residual_primal <= tolerance_primal:"))
+M("C02-budget-hardwired", {"C02": "C02.R9"}, (_S, "    for iteration in range(args.max_iterations):", "    for iteration in range(1000):"))
+M("C02-twin-u-reordered", {"C02": None}, (_S, "    return u + x - z", "    return x - z + u"))
+M("C02-twin-literal-eigen", {"C02": None, "C03": "C03.R2"}, (_S, "    eigenvalues = d + root\n    eigenvalues[negative] = (4*rho) / (root[negative] - d[negative])\n", "    eigenvalues = d + root\n"))
